@@ -70,6 +70,10 @@ def configs(tier, seed):
         cfgs.append(dict(backend='dict', backoff=bo, n=2, messages=1, harness_wait=True, slow_ops=['get'], d=3, dd=1, menu=MENU,
                          script=[['enqueue', 0], ['announce', 0]]))
     cfgs.append(dict(backend='redis', backoff='r0x2', n=2, messages=1, redis_yields=['hmget'], d=3, dd=1, menu=MENU))
+    # relays that answer with a sequence (list) instead of a mapping
+    for b in ('dict', 'disk', 'shelf'):
+        cfgs.append(dict(backend=b, backoff='r0x2', n=2, messages=1, d=0, dd=3, menu=dict(MENU, sequences=True)))
+    cfgs.append(dict(backend='redis', backoff='r0x2', n=3, messages=1, d=0, dd=2, menu=dict(MENU, sequences=True)))
     # an announcement arriving while the removal of the settled message is still running
     cfgs.append(dict(backend='dict', backoff='r0x2', n=2, messages=1, harness_wait=True, slow_ops=['remove'], d=3, dd=1, menu=MENU,
                      script=[['enqueue', 0], ['announce', 0]]))
